@@ -27,9 +27,8 @@ TRUSTED = [
     "modelled by hand: nextobject/do_keyword/flush of PSStackParser, PDFParser, PDFStreamParser (Model/StackParser.v) on "
     "top of Model/Lexer.v; tied by correspondence. Python float()/int(), utf-8 decision for names, safe_int on "
     "non-integer operands are outside the model",
-    "the theorems are about the model; the proved family of spellings excludes balanced unescaped parentheses inside literal "
-    "strings (sampled only) and says nothing about the numeric value of a real (the token carries the spelling; float() is "
-    "Python's, compared by the harness on dyadic values)",
+    "the theorems are about the model and say nothing about the numeric value of a real (the token carries the spelling; "
+    "float() is Python's, compared by the harness on dyadic values)",
 ]
 ASSUMPTIONS = ["settings.STRICT is False (the library default)", "object numbers are integers; generation numbers are discarded "
                "by pdfminer (PDFObjRef keeps the object number only), so references compare by object number"]
@@ -41,14 +40,14 @@ MANIFEST_ENTRY = {
     "text": "Theorems about the model: (1) object layer: for every value tree of any depth, nextobject applied to the value's token "
             "sequence yields exactly the value (null-valued dictionary entries absent, last duplicate key wins), in "
             "PDFStreamParser and PDFParser flavour; (2) byte layer per token: every admissible spelling of a literal string "
-            "(raw, named escape, 1-3 digit octal, line continuation LF/CR/CRLF, ignored backslash), hexadecimal string (either "
+            "(raw, balanced unescaped parentheses to any depth, named escape, 1-3 digit octal, line continuation LF/CR/CRLF, ignored "
+            "backslash), hexadecimal string (either "
             "case, white space anywhere), name (raw and #xx), integer (sign, leading zeros), real, keyword and bracket yields "
             "exactly that token, at every BUFSIZ and offset; every byte string / integer has such a spelling; (3) sequences: "
             "token spellings separated by any white space and comments, or by nothing where a delimiter follows (incl. the "
             "pending '>' after a hexadecimal string), are tokenized into exactly the tokens; (4) END TO END "
             "(C01_value_bytes_read_back): every such byte spelling of a value parses to the value, and every value has one; "
-            "(5) by C14 the result is the same for every BUFSIZ and file offset. Outside the proved family: balanced raw "
-            "parentheses in literal strings (sampled).",
+            "(5) by C14 the result is the same for every BUFSIZ and file offset.",
     "note": "Trusted: Coq kernel, class translator, hand model tied by correspondence, harness sampler. Known findings: odd-length "
             "hex strings (pinned by the test suite) and raw CR/CRLF inside literal strings are read differently from ISO; "
             "they are excluded from the theorems' spelling families and reported as KNOWN-FINDING.",
